@@ -1985,6 +1985,150 @@ theorem C14_stale_regimen_counterexample :
       outData, rowsFor, maskRows, exProblem, exDosed, Legacy.asIs, timesAccepted, adjacentOk, List.lookup, sortByTime,
       insertByTime, List.filterMap_cons, List.filter_cons]
 
+/-! ## no output → observable map given: outputs are matched to the observables of the same name -/
+
+theorem lookup_map_self (o : String) : ∀ (os : List String), o ∈ os →
+    (os.map (fun o => (o, o))).lookup o = some o := by
+  intro os
+  induction os with
+  | nil => intro h; cases h
+  | cons x xs ih =>
+    intro h
+    simp only [List.map_cons, List.lookup_cons]
+    by_cases hx : o = x
+    · subst hx; simp
+    · have hb : (o == x) = false := by simp [hx]
+      simp only [hb]
+      rcases List.mem_cons.mp h with h | h
+      · exact absurd h hx
+      · exact ih h
+
+/-- the map chi uses when none is passed, on a frame that holds an observable named like every
+    output: every output is looked up to the observable of its own name — whether or not the
+    single-output / single-observable pairing applies -/
+theorem resolveObsMap_none_lookup (outputs obsv : List String) (hsub : ∀ o ∈ outputs, o ∈ obsv) :
+    ∀ o ∈ outputs, (resolveObsMap outputs obsv none).lookup o = some o := by
+  intro o ho
+  unfold resolveObsMap
+  split
+  · rename_i m hm; cases hm
+  · split
+    · rename_i o' b
+      have ho' : o = o' := by simpa using ho
+      subst ho'
+      have hb : o = b := by simpa using hsub o ho
+      subst hb
+      simp [List.lookup_cons]
+    · exact lookup_map_self o outputs ho
+
+/-- **C14 (no map passed: outputs and observables are matched by name).** When the frame holds an
+    observable named like every model output, `set_data` without `output_observable_dict` accepts the
+    frame and assigns to every output the observable of the same name — however many other observables
+    the frame holds and wherever they stand. -/
+theorem C14_default_map_by_name (outputs obsv : List String) (hsub : ∀ o ∈ outputs, o ∈ obsv) :
+    ∃ om, checkObsMap outputs obsv none = .ok om ∧ ∀ o ∈ outputs, om.lookup o = some o := by
+  have hl := resolveObsMap_none_lookup outputs obsv hsub
+  have hv : mapValid outputs obsv (resolveObsMap outputs obsv none) = true := by
+    unfold mapValid
+    apply List.all_eq_true.mpr
+    intro o ho
+    rw [hl o ho]
+    simpa using hsub o ho
+  exact ⟨resolveObsMap outputs obsv none, by unfold checkObsMap; rw [if_pos hv], hl⟩
+
+/-- **C14 (no map passed: unrelated observables are irrelevant).** Two frames that both hold the
+    observables named like the outputs — one with, one without further observables (another
+    biomarker, covariate rows, labelled dose rows), in any order of appearance — give every output
+    the same observable. -/
+theorem C14_default_map_unrelated_observables (outputs obsv obsv' : List String)
+    (h : ∀ o ∈ outputs, o ∈ obsv) (h' : ∀ o ∈ outputs, o ∈ obsv') :
+    ∀ o ∈ outputs, (resolveObsMap outputs obsv none).lookup o = (resolveObsMap outputs obsv' none).lookup o := by
+  intro o ho
+  rw [resolveObsMap_none_lookup outputs obsv h o ho, resolveObsMap_none_lookup outputs obsv' h' o ho]
+
+/-- **C14 (the documented convenience).** One output and a frame with ONE observable are paired
+    whatever the observable is called. -/
+theorem C14_default_map_single (o b : String) : checkObsMap [o] [b] none = .ok [(o, b)] := by
+  simp [checkObsMap, resolveObsMap, mapValid, List.lookup_cons]
+
+/-- **C14 (no map passed, a name is missing).** Outside the single / single case a frame that lacks an
+    observable named like some output is rejected — no other observable is taken in its place. -/
+theorem C14_default_map_missing (outputs obsv : List String) (o : String) (ho : o ∈ outputs) (hno : o ∉ obsv)
+    (hns : ¬ (outputs.length = 1 ∧ obsv.length = 1)) :
+    checkObsMap outputs obsv none = .error .valueError := by
+  have hr : resolveObsMap outputs obsv none = outputs.map (fun o => (o, o)) := by
+    unfold resolveObsMap
+    split
+    · rename_i m hm; cases hm
+    · split
+      · exact absurd ⟨rfl, rfl⟩ hns
+      · rfl
+  have hv : mapValid outputs obsv (resolveObsMap outputs obsv none) = false := by
+    rw [hr]
+    unfold mapValid
+    apply Bool.eq_false_iff.mpr
+    intro hall
+    have := List.all_eq_true.mp hall o ho
+    rw [lookup_map_self o outputs ho] at this
+    exact hno (by simpa using this)
+  unfold checkObsMap
+  rw [hv]
+  rfl
+
+/-- what `set_data` stores as the map is what `_check_output_observable_dict` returned for the
+    observables of the raw frame -/
+theorem setData_obsMap [Div α] [ScalarFns α] (cfg : Config) (raw : List (RawRow α)) (P : Problem α)
+    (h : setData cfg raw = .ok P) :
+    checkObsMap cfg.outputs (rawObservables raw) (strMap cfg.obsMap) = .ok P.obsMap ∧ P.outputs = cfg.outputs := by
+  unfold setData at h
+  simp only at h
+  rcases ho : checkObsMap cfg.outputs (rawObservables raw) (strMap cfg.obsMap) with x | om
+  · rw [ho] at h; cases h
+  · rw [ho] at h
+    simp only at h
+    rcases hcm : checkCovMap cfg.covNames (rawObservables raw) (strMap cfg.covMap) with x | cm
+    · rw [hcm] at h; cases h
+    · rw [hcm] at h
+      simp only at h
+      split at h
+      · cases h
+      · split at h
+        · cases h
+        · simp only [Except.ok.injEq] at h
+          subst h
+          exact ⟨rfl, rfl⟩
+
+/-- **C14 (`set_data` without a map).** Whatever frame `set_data` accepts without an
+    `output_observable_dict`: if it holds an observable named like every output, the stored map sends
+    every output to that observable; so (`C14_posterior`, `C14_data_follows_outputs`) the k-th data
+    block of every likelihood holds the measurements of the observable named like `outputs()[k]` — not
+    those of whichever observable appears first in the frame. -/
+theorem C14_set_data_default_map [Div α] [ScalarFns α] (cfg : Config) (raw : List (RawRow α)) (P : Problem α)
+    (h : setData cfg raw = .ok P) (hm : cfg.obsMap = none)
+    (hsub : ∀ o ∈ cfg.outputs, o ∈ rawObservables raw) :
+    ∀ o ∈ P.outputs, P.obsMap.lookup o = some o := by
+  obtain ⟨h1, h2⟩ := setData_obsMap cfg raw P h
+  rw [hm] at h1
+  obtain ⟨om, hom, hl⟩ := C14_default_map_by_name cfg.outputs (rawObservables raw) hsub
+  have : strMap (none : Option (List (String × RawId))) = none := rfl
+  rw [this, hom] at h1
+  simp only [Except.ok.injEq] at h1
+  subst h1
+  rw [h2]
+  exact hl
+
+/-- **C14 (two frames, no map).** Two accepted frames that differ in their unrelated observables give
+    the outputs the same observables. -/
+theorem C14_default_map_frames [Div α] [ScalarFns α] (cfg : Config) (raw raw' : List (RawRow α)) (P P' : Problem α)
+    (h : setData cfg raw = .ok P) (h' : setData cfg raw' = .ok P') (hm : cfg.obsMap = none)
+    (hsub : ∀ o ∈ cfg.outputs, o ∈ rawObservables raw) (hsub' : ∀ o ∈ cfg.outputs, o ∈ rawObservables raw') :
+    ∀ o ∈ cfg.outputs, P.obsMap.lookup o = P'.obsMap.lookup o := by
+  intro o ho
+  have e1 := (setData_obsMap cfg raw P h).2
+  have e2 := (setData_obsMap cfg raw' P' h').2
+  rw [C14_set_data_default_map cfg raw P h hm hsub o (by rw [e1]; exact ho),
+    C14_set_data_default_map cfg raw' P' h' hm hsub' o (by rw [e2]; exact ho)]
+
 /-! ## non-vacuity -/
 
 example : unique ["b", "a", "b", "c", "a"] = ["b", "a", "c"] := by decide
@@ -1998,5 +2142,11 @@ example : specRows ([⟨"1", some 1, some "conc", some 5, none, none⟩, ⟨"2",
     between two errors -/
 example : getLogPosterior Legacy.preFix (exProblem [("1", 1, 1), ("2", 2, 2)] ["1", "2"] false) (some (.str "2")) none
     = .ok (.single ⟨"2", [⟨[2], [2]⟩], none⟩, none) := C14_selector_counterexample.2.1
+/-- an unrelated observable that appears first does not take the place of the output's observable … -/
+example : checkObsMap ["Conc"] ["CRP", "Conc"] none = .ok [("Conc", "Conc")] := by decide
+/-- … one output and one observable are paired, several outputs are matched by name, a missing name is an error -/
+example : checkObsMap ["Conc"] ["Plasma conc"] none = .ok [("Conc", "Plasma conc")] := by decide
+example : checkObsMap ["a", "b"] ["x", "b", "a"] none = .ok [("a", "a"), ("b", "b")] := by decide
+example : checkObsMap ["Conc"] ["CRP", "IL6"] none = .error .valueError := by decide
 
 end ChiModel.Problem
